@@ -146,7 +146,7 @@ SLOT_OF = {"access_token": ["userinfo", "introspection"], "refresh_token": ["ref
 
 
 def endpoint_oracle(ctx, rng, variant, n_flows, n_mut):
-    shared, jwt = variant
+    shared, jwt, idt_alg = variant
     old = srv.make_server
 
     def mk(*a, **k):
@@ -154,8 +154,9 @@ def endpoint_oracle(ctx, rng, variant, n_flows, n_mut):
         return old(*a, **k)
     srv.make_server = mk
     try:
-        rs = sess.RealSession(oidc=True, jwt_access=jwt)
-        rs2 = sess.RealSession(oidc=True, jwt_access=jwt)      # a second instance; with pinned keys it shares them
+        over = {c: {"id_token_signed_response_alg": idt_alg} for c in sess.CLIENTS} if idt_alg else None
+        rs = sess.RealSession(oidc=True, jwt_access=jwt, client_over=over)
+        rs2 = sess.RealSession(oidc=True, jwt_access=jwt, client_over=over)      # a second instance; with pinned keys it shares them
     finally:
         srv.make_server = old
     try:
@@ -174,7 +175,40 @@ def endpoint_oracle(ctx, rng, variant, n_flows, n_mut):
         rs2.run(("tparse", "client_1", ("tok", o2[1][0]), "same"))
         p2 = rs2.run(("proc", 0, None))
         foreign = {"access_token": rs2.tokens[p2[1]["access_token"]], "refresh_token": rs2.tokens[p2[1]["refresh_token"]]}
+        th = rs.sm.token_handler
         for f in flows:
+            # ---- handler level: no handler may resolve a token of another class (ID Tokens included)
+            for cls in ("access_token", "refresh_token", "id_token", "code"):
+                tid = f[cls]
+                real_cls = rs.tokobj[tid].token_class
+                for hk in ("authorization_code", "access_token", "refresh_token"):
+                    try:
+                        info = th.handler[hk].info(rs.tokens[tid])
+                        ok = bool(info.get("sid"))
+                    except Exception:
+                        ok = False
+                    rec = {"variant": variant, "handler": hk, "token_class": real_cls, "resolved": ok}
+                    ctx.case_seen(rec, True)
+                    if ok and hk != real_cls:
+                        ctx.violation("class-confusion", "handler %s resolves a %s (id_token alg %s, jwt access %s)" % (hk, real_cls, idt_alg, jwt), rec)
+                # the token itself as bearer credential at the revocation endpoint
+                if real_cls != "access_token":
+                    try:
+                        ep = rs.server.get_endpoint("token_revocation")
+                        saved = ep.client_authn_method
+                        from idpyoidc.server.client_authn import BearerHeader
+                        ep.client_authn_method = [BearerHeader(upstream_get=ep.upstream_get)]
+                        try:
+                            p = ep.parse_request({"token": rs.tokens[f["access_token"]]},
+                                                 http_info={"headers": {"authorization": "Bearer " + rs.tokens[tid]}})
+                            accepted = "error" not in p
+                        finally:
+                            ep.client_authn_method = saved
+                    except Exception:
+                        accepted = False
+                    if accepted:
+                        ctx.violation("wrong-class-accepted", "%s accepted as bearer credential at the revocation endpoint" % real_cls,
+                                      {"variant": variant, "class": real_cls})
             # ---- every genuine token in every slot
             for cls in ("access_token", "refresh_token", "id_token", "code"):
                 tid = f[cls]
@@ -237,7 +271,7 @@ def run(ctx):
     plain_cases(ctx, rng, server, 200 if ctx.quick else 5000)
     info_matrix(ctx, True)
     info_matrix(ctx, False)
-    for variant in [(True, False), (False, False), (True, True)]:
+    for variant in [(True, False, None), (False, False, None), (True, True, None), (True, True, "ES256")]:
         endpoint_oracle(ctx, rng, variant, 2 if ctx.quick else 12, 14 if ctx.quick else 80)
 
 
